@@ -1012,9 +1012,10 @@ class C04(core.Check):
                   "run (py2v), so sgr_means_visual_attribute is re-checked against the code; (visual_colours) the colour of every kind (true, high, basic, default) spelled out; "
                   "(row_cells_is_threaded) zero-width (combining) characters and C0 control characters (dropped under UTF-8, '?' "
                   "under narrow encodings) are covered by all of the above except as the first character of a run - the "
-                  "reference terminal joins a zero-width character to the character before the cursor.  NOT proved, "
-                  "statement kept (draw_paints_any_text_full; two earlier refutation witnesses repaired and kept in the "
-                  "corpus): runs that start with a zero-column character or hold no columns - oracle only.  Correspondence/oracle only: everything above on the real code (exact token streams, all "
+                  "reference terminal joins a zero-width character to the character before the cursor.  (draw_paints_any_text, "
+                  "draws_paint_any, full-screen mode) the same for ANY text: runs that start with a zero-column character or hold "
+                  "no column, with the row spec threading combining characters across runs (both earlier refutation witnesses "
+                  "are now instances, kept in the corpus).  Correspondence/oracle only: everything above on the real code (exact token streams, all "
                   "five colour depths, utf-8/ascii/iso8859-1, widgets), partial display with an origin below row 0, and for "
                   "the HTML back-end the colour strings.")
     level_note = ("Trusted: Coq kernel; the hand-written model (tied by exact correspondence, not proved against Python); "
